@@ -169,7 +169,8 @@ class WorkCalendarDisjunction(IWorkCalendar):
             self,
             calendars: Iterable[IWorkCalendar]
     ):
-        self.__calendars = calendars if calendars is not None else []
+        # a list of its own: the iterable may be readable only once, and is asked for every date
+        self.__calendars = list(calendars) if calendars is not None else []
 
     def get_available_units(self, date: datetime) -> Optional[float]:
         for c in self.__calendars:
@@ -188,7 +189,8 @@ class WorkCalendarSum(IWorkCalendar):
             self,
             calendars: Iterable[IWorkCalendar]
     ):
-        self.__calendars = calendars if calendars is not None else []
+        # a list of its own: the iterable may be readable only once, and is asked for every date
+        self.__calendars = list(calendars) if calendars is not None else []
 
     def get_available_units(self, date: datetime) -> Optional[float]:
         units = None
@@ -212,7 +214,8 @@ class WorkCalendarSub(IWorkCalendar):
             self,
             calendars: Iterable[IWorkCalendar]
     ):
-        self.__calendars = calendars if calendars is not None else []
+        # a list of its own: the iterable may be readable only once, and is asked for every date
+        self.__calendars = list(calendars) if calendars is not None else []
 
     def get_available_units(self, date: datetime) -> Optional[float]:
         units = None
@@ -238,7 +241,8 @@ class WorkCalendarsMul(IWorkCalendar):
             self,
             calendars: Iterable[IWorkCalendar]
     ):
-        self.__calendars = calendars if calendars is not None else []
+        # a list of its own: the iterable may be readable only once, and is asked for every date
+        self.__calendars = list(calendars) if calendars is not None else []
 
     def get_available_units(self, date: datetime) -> Optional[float]:
         units = None
@@ -262,7 +266,8 @@ class WorkCalendarDiv(IWorkCalendar):
             self,
             calendars: Iterable[IWorkCalendar]
     ):
-        self.__calendars = calendars if calendars is not None else []
+        # a list of its own: the iterable may be readable only once, and is asked for every date
+        self.__calendars = list(calendars) if calendars is not None else []
 
     def get_available_units(self, date: datetime) -> Optional[float]:
         units = None
